@@ -12,7 +12,11 @@ SPEC = {
                   "miss; these are how the model's retrieve functions are DEFINED, so the theorems are one-liners and the weight is on the tie: "
                   "one regenerated fact per return statement of readTar, the 404/non-200 arms, the exit-status conjunction, the fact that "
                   "cmdCache.Retrieve's input never ends cleanly, and correspondence runs with the body cut at 2/5/30/60 %.  Fault-free round trip "
-                  "(full, by induction over the writer).  STORE side PARTIAL: the HTTP store commits after a read error - a miss later only when "
+                  "(full, by induction over the writer).  STORE side: ALL THREE FINDINGS ARE FIXED in /repo (f96953b: the HTTP writer fails "
+                  "the request on a read error; c251f14: the command cache's writer no longer writes tar's end marker after bailing "
+                  "out) and the full-strength statements hold: C13_http_store_read_fault and C13_cmd_store_read_fault (every store "
+                  "command, every amount taken in, every outcome of the kill race).  The old witnesses are kept conditional on the old "
+                  "fact values.  History of the store side before the fixes: the HTTP store commits after a read error - a miss later only when "
                   "a short body was written (C13_http_partial, via a writer invariant), a HIT lacking files when the output had vanished or a "
                   "zero-length file was unreadable (two witnesses), and the full statement if the error were passed to the request "
                   "(C13_http_if_error_propagates).  Command store: after a read fault write() cancels AND finishes the archive, so `cat > $KEY` "
